@@ -67,7 +67,7 @@ func (p *recProc) SendUserMessage(pid *actor.PID, message interface{}) {
 	}
 }
 func (p *recProc) SendSystemMessage(pid *actor.PID, message interface{}) {}
-func (p *recProc) Stop(pid *actor.PID)                                  {}
+func (p *recProc) Stop(pid *actor.PID)                                   {}
 
 // ---------------------------------------------------------------- requesting service
 
@@ -401,6 +401,7 @@ type gen struct {
 	h     *hx.T
 	names []string // instance names of the current view (well-formed ones)
 	types []string
+	ruled []string // types that got a rule in the current case
 }
 
 func (g *gen) pick(xs []string) string { return xs[g.h.R.Intn(len(xs))] }
@@ -412,8 +413,10 @@ func (g *gen) svcName() string {
 		h.Count("view.svc.malformed")
 		return g.pick([]string{"", "chat", "a.b.c", ".c1", "chat.", ".", "..", "chat.c1.x", "c1"})
 	case 1:
-		h.Count("view.svc.sentinel-name")
-		return g.pick(typeNames) + "." + g.pick(sentinels)
+		if h.R.Intn(4) == 0 {
+			h.Count("view.svc.sentinel-name")
+			return g.pick(typeNames) + "." + g.pick(sentinels)
+		}
 	case 2:
 		h.Count("view.svc.dup-candidate")
 		return g.pick(typeNames[:2]) + ".dup"
@@ -452,6 +455,14 @@ func (g *gen) viewOp() string {
 		}
 		h.Count(fmt.Sprintf("view.member.state%d", state))
 	}
+	byName := map[string]string{}
+	for i, n := range g.names {
+		if t, ok := byName[n]; ok && t != g.types[i] {
+			h.Count("view.same-name-under-two-types")
+			break
+		}
+		byName[n] = g.types[i]
+	}
 	h.Count(fmt.Sprintf("view.nodes%d", n))
 	return sb.String()
 }
@@ -472,6 +483,8 @@ func (g *gen) name() string {
 func (g *gen) typ() string {
 	h := g.h
 	switch {
+	case len(g.ruled) > 0 && h.R.Intn(10) < 3:
+		return g.pick(g.ruled)
 	case len(g.types) > 0 && h.R.Intn(10) < 6:
 		return g.pick(g.types)
 	case h.R.Intn(10) == 0:
@@ -536,7 +549,9 @@ func (g *gen) ruleOp() string {
 		beh = "none"
 	}
 	h.Count("rule." + strings.SplitN(beh, ":", 2)[0])
-	return "rule type=" + g.typ() + " beh=" + beh
+	t := g.typ()
+	g.ruled = append(g.ruled, t)
+	return "rule type=" + t + " beh=" + beh
 }
 
 func (g *gen) routeStr() string {
@@ -599,6 +614,56 @@ func (g *gen) callOp() string {
 	return "req r=" + g.routeStr() + " " + g.param() + nocb
 }
 
+// ---------------------------------------------------------------- bounded exhaustive grid
+
+var gridViews = []string{
+	"view",
+	"view m=c@n1|h1|1|1|+chat.c1+gate.g1",
+	"view m=c@n1|h1|1|2|+chat.c1",
+	"view m=c@n1|h1|1|0|+chat.c1+gate.g1 m=c@n2|h2|2|1|+chat.c2+gate.g1",
+	"view m=c@n1|h1|1|1|+gate.x+chat.x",
+	"view m=c@n1|h1|1|1|+chat+a.b.c+.c1+chat.++chat.c1",
+	"view m=c@n1|h1|1|1|+db.no_service+chat.bad_route_param+x.miss_route_func+chat.c1",
+	"view m=c@n1|h1|1|1|+chat.c1 m=c@n1|h2|2|1|+chat.c2",
+	"view m=c@n1|h1|1|0|+chat.c9 m=c@n2|h2|2|3|+chat.c2 m=c@n3||3|1|+chat.c1+gate.g1 m=n4|h4|4|5|+chat.c1",
+}
+var gridRules = []string{"none", "const:c1", "const:c9", "const:", "key:chatid", "empty", "panic"}
+var gridParams = []string{"nil", "tnil", "sess:", "sess:chatid~sc1", "sess:chatid~sc2", "sess:chatid~sc9", "sess:chatid~i1",
+	"sess:k~sc1", "map:chatid~sc1", "map:", "map:chatid~sc1;chatid~sc2", "str:c1", "str:", "str:c9", "str:x", "str:no_service",
+	"other:int", "other:smap", "other:slice", "other:ptr"}
+var gridRoutes = []string{"chat.remote.say", "gate.handler.enter", "nosuch.r.m", ".r.m", "bad", "a.b.c.d", "", "..", "chat.remote"}
+var gridFronts = []string{"c1", "g1", "x", "c9", "", "no_service", "chat.c1"}
+
+// grid enumerates view x rule x parameter x route x call kind; returns the number of ops.
+func grid(run func(string), def int, rules []string) int {
+	n := 0
+	do := func(op string) { run(op); n++ }
+	for _, v := range gridViews {
+		for _, rl := range rules {
+			do(fmt.Sprintf("reset default=%d", def))
+			do(v)
+			do("rule type=chat beh=" + rl)
+			for _, r := range gridRoutes {
+				for _, p := range gridParams {
+					do("req r=" + r + " p=" + p)
+					do("ntf r=" + r + " p=" + p)
+				}
+			}
+			for _, p := range gridParams {
+				do("pid type=chat p=" + p)
+				do("route type=chat p=" + p)
+			}
+			for _, f := range gridFronts {
+				do("qs front=" + f + " sid=1")
+				do("kick front=" + f + " sid=2")
+				do("kick front=" + f + " sid=2 nocb=1")
+				do("getpid name=" + f)
+			}
+		}
+	}
+	return n
+}
+
 func TestRun(t *testing.T) {
 	synctest.Test(t, func(t *testing.T) {
 		for _, n := range []string{"default", "exception"} {
@@ -634,6 +699,7 @@ func TestRun(t *testing.T) {
 			h.Count("corpus")
 			run(op)
 		}
+		h.Stats["exhaustive.grid.default1"] = grid(run, 1, gridRules)
 		g := &gen{h: h}
 		n := hx.EnvInt("VERIF_N", 4000)
 		cases := n / 12
@@ -642,7 +708,9 @@ func TestRun(t *testing.T) {
 			if c >= cases*9/10 { // the last tenth runs without a default route function (cannot be restored)
 				def = 0
 			}
+			h.Count(fmt.Sprintf("case.default%d", def))
 			run(fmt.Sprintf("reset default=%d", def))
+			g.ruled = nil
 			run(g.viewOp())
 			steps := 6 + h.R.Intn(10)
 			for i := 0; i < steps; i++ {
@@ -656,6 +724,12 @@ func TestRun(t *testing.T) {
 					run(g.callOp())
 				}
 			}
+		}
+		h.Stats["exhaustive.grid.default0"] = grid(run, 0, gridRules[:2])
+		// hand-written cases without the default route function, last (it cannot be restored)
+		for _, op := range hx.CorpusOps(hx.Env("VERIF_CORPUS", "corpus/C07") + "/tail") {
+			h.Count("corpus.tail")
+			run(op)
 		}
 		finish()
 	})
